@@ -84,7 +84,7 @@ func (pass *AnonymousEnumToExplicitType) processType(pkg string, currentObjectNa
 	}
 
 	if def.IsEnum() {
-		return pass.processAnonymousEnum(pkg, suggestedEnumName, def.AsEnum(), def.Nullable)
+		return pass.processAnonymousEnum(pkg, suggestedEnumName, def)
 	}
 
 	if def.IsDisjunction() {
@@ -138,11 +138,11 @@ func (pass *AnonymousEnumToExplicitType) processStruct(pkg string, parentName st
 	return def
 }
 
-func (pass *AnonymousEnumToExplicitType) processAnonymousEnum(pkg string, parentName string, def ast.EnumType, nullable bool) ast.Type {
+func (pass *AnonymousEnumToExplicitType) processAnonymousEnum(pkg string, parentName string, def ast.Type) ast.Type {
 	enumTypeName := tools.UpperCamelCase(parentName)
 
-	values := make([]ast.EnumValue, 0, len(def.Values))
-	for _, val := range def.Values {
+	values := make([]ast.EnumValue, 0, len(def.Enum.Values))
+	for _, val := range def.Enum.Values {
 		values = append(values, ast.EnumValue{
 			Type:  val.Type,
 			Name:  tools.UpperCamelCase(val.Name),
@@ -158,8 +158,11 @@ func (pass *AnonymousEnumToExplicitType) processAnonymousEnum(pkg string, parent
 	typeOpts := []ast.TypeOption{
 		ast.Trail("AnonymousEnumToExplicitType"),
 	}
-	if nullable {
+	if def.Nullable {
 		typeOpts = append(typeOpts, ast.Nullable())
+	}
+	if def.Default != nil {
+		typeOpts = append(typeOpts, ast.Default(def.Default))
 	}
 
 	return ast.NewRef(pass.currentPackage, enumTypeName, typeOpts...)
